@@ -63,6 +63,10 @@ CLAIMS = {
  'C20': ("Contract proof of the flush policies and of where chunks are cut: IsFlush of the five policies (none/interval: never; immediate: always; size and interval-or-size: size > threshold); in flushLoop the write arm appends under the lock, asks the policy with the buffered payload size (as uint32) and calls flush in that iteration iff the policy said so, the other arms may always flush, flush is never called under the lock; "
          "flush cuts everything buffered or nothing (shared with C01); a state snapshot reports the current totals and exactly one group per buffered data id with that id's point count (nothing invented); WriteDataPoints never returns an error for points it handed over.",
          "NOT decided: that Flush is a barrier for points written by other goroutines (rendezvous order), the interval bound (timing), silence of the none/size/immediate tickers. Buffered payload < 2^32 bytes (A5).", "6/C20"),
+ 'C02': ("Contract proof of the retransmission kernels of a reliable upstream: the store that feeds retransmission is faithful per (stream, sequence number) including payloads (inmemSentStorage, shared with C07) and is the default one chosen by ConnectWithConfig; "
+         "the store forgets a chunk only after a result for exactly that chunk was received (sendChunkAndWaitAck), and a nil 'ack timeout' result is produced only after the timeout fired and the surrounding context was then seen not cancelled (so a disconnect is never mistaken for a timeout); "
+         "after a reliable resume every listed chunk is sent again under the sequence number it was stored with, with its result channel registered under that number; resume asks for the original stream id and marks the stream connected on success; sequence numbers advance by exactly one (no reuse, shared with C01).",
+         "NOT decided (liveness / fault sequences): that a resume eventually happens, cut positions relative to the message stream, two failures in a row beyond the per-function contracts, totals after resume beyond the C01 invariant, the resend payload conversion of stored groups (toUpstreamDataPointGroups is proved under C01).", "6/C02"),
 }
 NA_REASON_DEFAULT = "check not built yet (framework under construction; see DESIGN.md section 8)"
 NA = {}
